@@ -756,3 +756,74 @@ func RichElements(res *fw.Result, seed int64, n int) error {
 	res.Eval(true, []interface{}{"rich-elements", n})
 	return nil
 }
+
+// StaleContextAfterReconnect: channel ids restart on every connection.  Subscription A is lost with its
+// connection (and closed correctly); the client redials; subscription B — which gets A's channel id on the
+// new connection — is opened; then A's (stale) context is cancelled.  B must be unaffected: its values
+// arrive and its channel closes when its handler closes.
+func StaleContextAfterReconnect(d *fw.Driver, res *fw.Result, seed int64) error {
+	e, err := scen.NewEnv(seed, 1)
+	if err != nil {
+		return err
+	}
+	defer e.Close()
+	ctx, cancelAll := context.WithCancel(context.Background())
+	defer cancelAll()
+	cl, closer, err := e.Client(ctx, jsonrpc.WithPingInterval(0), jsonrpc.WithTimeout(0), jsonrpc.WithReconnectBackoff(3*time.Millisecond, 15*time.Millisecond))
+	if err != nil {
+		return err
+	}
+	defer scen.WithTimeout(3*time.Second, closer)
+	sig := "stale subscription context cancelled after a reconnect"
+	var wg sync.WaitGroup
+	a := &Sub{Tok: 970001, N: -1, Mode: "fast"}
+	a.Ctx, a.Cancel = context.WithCancel(ctx)
+	a.Start(e, cl, &wg)
+	for w := 0; w < 3000 && e.RT.Count("c.recv") < 3; w++ {
+		time.Sleep(time.Millisecond)
+	}
+	e.PX.Cut(0, "rst")
+	select {
+	case <-a.Done:
+	case <-time.After(5 * time.Second):
+		res.Add(fw.Finding{Kind: "monitor", Signature: sig + " first channel never closed", Detail: "the subscription lost with its connection was not closed within 5s"})
+		return nil
+	}
+	// wait for the heal
+	healed := false
+	for w := 0; w < 500 && !healed; w++ {
+		done := make(chan bool, 1)
+		go func() { v, err := cl.Add(20, 22); done <- err == nil && v == 42 }()
+		select {
+		case healed = <-done:
+		case <-time.After(time.Second):
+		}
+		if !healed {
+			time.Sleep(5 * time.Millisecond)
+		}
+	}
+	if !healed {
+		res.Add(fw.Finding{Kind: "monitor", Signature: sig + " no heal", Detail: "the client did not heal"})
+		return nil
+	}
+	b := &Sub{Tok: 970002, N: 40, Mode: "slow"}
+	b.Ctx, b.Cancel = context.WithCancel(ctx)
+	b.Start(e, cl, &wg)
+	time.Sleep(2 * time.Millisecond)
+	e.RT.Log("ctx.cancel", "tok", a.Tok)
+	a.Cancel() // the context of a subscription that ended with the previous connection
+	select {
+	case <-b.Done:
+	case <-time.After(6 * time.Second):
+		res.Add(fw.Finding{Kind: "monitor", Signature: sig + " channel never closed", Detail: fmt.Sprintf("subscription B (opened on the new connection) was not closed within 6s of its handler closing; it received %d of 40 values", len(b.Got)),
+			Case: map[string]interface{}{"scenario": "stale-context-after-reconnect"}})
+		return nil
+	}
+	if len(b.Got) != 40 {
+		res.Add(fw.Finding{Kind: "monitor", Signature: sig + " values lost", Detail: fmt.Sprintf("subscription B received %d of the 40 values its handler sent on a healthy connection", len(b.Got)),
+			Case: map[string]interface{}{"scenario": "stale-context-after-reconnect"}})
+	}
+	res.Count("stale-context-after-reconnect")
+	res.Eval(true, []interface{}{"stale-context-after-reconnect"})
+	return nil
+}
